@@ -9,6 +9,7 @@ R06.1 FirstCache::get / FollowCache::get: the slot that is tested for "already c
 R06.2 who may write the cache slots: only the two get functions (and Default) store into FirstCache.0 / FollowCache.0; the
       solvers read other slots only through get (so a missing lower-k entry is computed on demand instead of being read as
       empty).
+R06.3 the fixpoint loops of first_k / follow_k are left only on an equality test of the complete old and new state.
 """
 from ..dataflow import raw_operand_place, raw_place, single_def
 from ..facts import AnchorMissing
@@ -98,3 +99,62 @@ def check(ctx):
                                          sorted({"write" if k == "w" else "read" for _b, k, _l in outside})),
                   where(outside[0][0], outside[0][2]) if outside else "crates/parol/src/analysis/k_decision.rs")
     ctx.require_floor("R06.1", "caches", len(CACHES), 2)
+    whole_state_convergence(ctx, facts)
+
+
+# ------------------------------------------------------------------------------------------------------------------ R06.3
+SOLVERS = ("parol::analysis::first::first_k", "parol::analysis::follow::follow_k")
+PARTIAL = {"index", "index_mut", "get", "get_mut", "split_at", "split_first", "split_last", "skip", "take", "first", "last",
+           "step_by", "filter", "range", "get_unchecked", "chunks", "windows", "iter_mut"}
+
+
+def whole_state_convergence(ctx, facts):
+    """R06.3 (added after seed C06-a) the fixpoint loops of first_k / follow_k stop only when the *whole* state is unchanged: every
+    exit of the iteration loop is guarded by an equality test whose two operands are the complete old and new state values (reached
+    through deref / borrow / clone only).  A test on a part of the state (a sub-slice, one half of the result vector) can hold one
+    iteration before the rest has stopped changing; the loop then returns a state that is not a fixpoint - stale per-production
+    sets, a FIRST/FIRST conflict is missed."""
+    from .. import cfg
+    from ..dataflow import operand_term
+    from .common import classify_switch
+    n = 0
+    for path in SOLVERS:
+        b = facts.body(path)
+        loops = cfg.natural_loops(b)
+        for header, blocks, backs in loops:
+            # equality tests inside the loop that guard an exit edge
+            for d in sorted(blocks):
+                k = classify_switch(b, d)
+                if not k or k[0] != "call" or (k[1].path or "").split("::")[-1] not in ("eq", "ne"):
+                    continue
+                st = k[1].self_ty or ""
+                if not ("Vec<" in st or "Rc<" in st or st.startswith("[") or "Map<" in st or "HashMap" in st or "BTreeMap" in st):
+                    continue
+                leaves = [t for _v, t in b.switch_edges(d) if t not in blocks] or \
+                    [t for _v, t in b.switch_edges(d) if any(x not in blocks for x in cfg.reachable_from(b, t, avoid_blocks=[header]))]
+                if not leaves:
+                    continue
+                n += 1
+                partial = []
+                for o in k[1].args:
+                    t = operand_term(b, o)
+                    hops = 0
+                    while t[0] in ("call", "proj") and hops < 10:
+                        hops += 1
+                        if t[0] == "proj":
+                            t = t[1]
+                            continue
+                        nm = (t[1].path or "").split("::")[-1]
+                        if nm in PARTIAL:
+                            partial.append("%s at line %d" % (nm, t[1].line))
+                            break
+                        if nm in ("deref", "borrow", "as_ref", "clone", "as_slice", "deref_mut", "as_ptr", "new"):
+                            t = operand_term(b, t[1].args[0]) if t[1].args else ("unknown",)
+                            continue
+                        break
+                ctx.check(not partial, "R06.3", "%s|convergence-test@%d-compares-whole-state" % (path.split("::")[-1], n),
+                          "the loop is left on an equality of the complete old and new state",
+                          "%s leaves its fixpoint loop on a comparison of a *part* of the state (%s): the part that is not compared "
+                          "may still change in that round, and the state that is returned is the one from before the round"
+                          % (path.split("::")[-1], partial), where(b, k[1].line))
+    ctx.require_floor("R06.3", "convergence_tests", n, 2)
